@@ -16,6 +16,11 @@ pub struct ArithCase {
 /// All contracts for one (n, d, e) triple at cell type C. The operands are
 /// truncated to the cell width first: the domain is `C`, not `u64`.
 pub fn check_one<C: CellType>(n64: u64, d64: u64, e64: u64) -> Result<(bool, &'static str), String> {
+    check_with::<C>(n64, d64, e64, 1500)
+}
+
+/// `pow_reps` bounds the exponent up to which power is compared with literal repeated multiplication.
+pub fn check_with<C: CellType>(n64: u64, d64: u64, e64: u64, pow_reps: u64) -> Result<(bool, &'static str), String> {
     let (n, d, e) = (C::from_u64(n64), C::from_u64(d64), C::from_u64(e64));
     let w = C::BITS;
     let mask: u64 = if w == 64 { u64::MAX } else { (1u64 << w) - 1 };
@@ -62,7 +67,7 @@ pub fn check_one<C: CellType>(n64: u64, d64: u64, e64: u64) -> Result<(bool, &'s
         return Err(format!("is_odd({d:?})"));
     }
     // --- power: equals repeated multiplication (small exponents) and is a homomorphism
-    let small = e64 % 1500;
+    let small = e64 % pow_reps;
     let small_c = C::from_u64(small);
     let mut acc = C::ONE;
     for _ in 0..small_c.into_u64() {
@@ -216,7 +221,7 @@ impl Property for C14 {
             for n in (shard as u64..65536).step_by(shards) {
                 for d in 0..65536u64 {
                     pairs16 += 1;
-                    if let Err(msg) = check_one::<u16>(n, d, d) {
+                    if let Err(msg) = check_with::<u16>(n, d, d, 24) {
                         if out.len() < 3 {
                             out.push((ArithCase { bits: 16, n, d, e: d }, Fail { kind: "contract".into(), detail: format!("i16 (exhaustive): {msg}"), cfg: None }));
                         }
